@@ -70,6 +70,7 @@ func (p *Prog) inlineNewHelpers() int {
 	}
 	total := 0
 	all := map[*types.Func]*ast.FuncDecl{}
+	expanded := map[*types.Func]bool{}
 	for _, pkg := range p.ModPkgs() {
 		n, hs, hosts := inlinePkg(pkg, base)
 		total += n
@@ -78,6 +79,9 @@ func (p *Prog) inlineNewHelpers() int {
 		}
 		for o, fds := range hosts {
 			p.inlineHosts = append(p.inlineHosts, inlineHost{all[o].Pos(), all[o].End(), fds[0]})
+			if len(fds) > 0 {
+				expanded[o] = true
+			}
 		}
 	}
 	// a helper every call of which was expanded no longer exists as a function of its own
@@ -103,7 +107,9 @@ func (p *Prog) inlineNewHelpers() int {
 	}
 	p.inlinedAway = map[*types.Func]bool{}
 	for o := range all {
-		if !used[o] {
+		// (a new function nobody calls statically — a method that satisfies an interface, such as
+		// Is, Unwrap, String — was expanded nowhere and stays visible to every rule)
+		if !used[o] && expanded[o] {
 			p.inlinedAway[o] = true
 		}
 	}
